@@ -234,10 +234,16 @@ def lowerDsl (d : ADef) : M Device := do
 
 /-! ### Manifest lowering -/
 
-/-- Manifest integers are `u64` / `i64` (dd-manifest-tree). -/
-def manReset (r : Option ResetValue) : M (Option ResetValue) :=
+/-- Manifest integers: JSON numbers are read as `u64`; YAML and TOML integers are `i64`, so an
+    unsigned value must stay below 2^63 there. -/
+def manUintOk (s : Syntax) (n : Nat) : Bool :=
+  match s with
+  | .json => fitsU64 n
+  | _ => decide (n < 9223372036854775808)
+
+def manReset (s : Syntax) (r : Option ResetValue) : M (Option ResetValue) :=
   match r with
-  | some (.int n) => if fitsU64 n then pure r else throw (frontErr "front_bad_value")
+  | some (.int n) => if manUintOk s n then pure r else throw (frontErr "front_bad_value")
   | some (.array a) => if a.all (· < 256) then pure r else throw (frontErr "front_bad_value")
   | none => pure none
 
@@ -254,7 +260,7 @@ def manField (g : GlobalConfig) (f : AField) : M Field := do
   pure { cfg := f.cfg, description := f.description.getD "", name := f.name,
          access := f.access.getD g.defaultFieldAccess, base := f.base, conv := conv, start := start, stop := stop }
 
-def manOverride (target : String) (ov : AOverride) : M ObjectOverride := do
+def manOverride (syn : Syntax) (target : String) (ov : AOverride) : M ObjectOverride := do
   match ov.kind with
   | "buffer" => throw (frontErr "front_ref_buffer")
   | "ref" => throw (frontErr "front_ref_ref")
@@ -265,7 +271,7 @@ def manOverride (target : String) (ov : AOverride) : M ObjectOverride := do
   match ov.kind with
   | "block" => pure (.block { name := target, addressOffset := address, repeat_ := rep })
   | "register" =>
-    let reset ← manReset ov.reset
+    let reset ← manReset syn ov.reset
     pure (.register { name := target, access := ov.access, address := address,
                             allowAddressOverlap := ov.allowAddressOverlap.getD false,
                             reset := reset, repeat_ := rep })
@@ -274,11 +280,11 @@ def manOverride (target : String) (ov : AOverride) : M ObjectOverride := do
                             allowAddressOverlap := ov.allowAddressOverlap.getD false, repeat_ := rep })
 
 mutual
-def manObj (g : GlobalConfig) : AObj → M Object
+def manObj (syn : Syntax) (g : GlobalConfig) : AObj → M Object
   | .block c off rep os => do
     let off ← off.mapM checkAddr
     let rep ← checkRepeat rep
-    let os' ← manObjs g os
+    let os' ← manObjs syn g os
     let h : BlockHead :=
       { cfg := c.cfg, description := c.description.getD "", name := c.name,
         addressOffset := off.getD 0, repeat_ := rep }
@@ -287,7 +293,7 @@ def manObj (g : GlobalConfig) : AObj → M Object
     let fs ← fields.mapM (manField g)
     let address ← checkAddr address
     let size ← checkU32 size
-    let reset ← manReset reset
+    let reset ← manReset syn reset
     let rep ← checkRepeat rep
     let r : Register :=
       { cfg := c.cfg, description := c.description.getD "", name := c.name,
@@ -316,26 +322,26 @@ def manObj (g : GlobalConfig) : AObj → M Object
         access := access.getD g.defaultBufferAccess, address := address }
     pure (.buffer b)
   | .ref c target ov => do
-    let ov' ← manOverride target ov
+    let ov' ← manOverride syn target ov
     let r : RefObject :=
       { cfg := c.cfg, description := c.description.getD "", name := c.name, override := ov' }
     pure (.ref r)
-def manObjs (g : GlobalConfig) : List AObj → M (List Object)
+def manObjs (syn : Syntax) (g : GlobalConfig) : List AObj → M (List Object)
   | [] => pure []
   | o :: os => do
-    let o' ← manObj g o
-    let os' ← manObjs g os
+    let o' ← manObj syn g o
+    let os' ← manObjs syn g os
     pure (o' :: os')
 end
 
-def lowerManifest (d : ADef) : M Device := do
+def lowerManifest (syn : Syntax) (d : ADef) : M Device := do
   let g := lowerConfig d.config
-  let os ← manObjs g d.objects
+  let os ← manObjs syn g d.objects
   pure { config := g, objects := os }
 
 def lowerFront (s : Syntax) (d : ADef) : M Device :=
   match s with
   | .dsl => lowerDsl d
-  | _ => lowerManifest d
+  | s => lowerManifest s d
 
 end DDV.Gen
